@@ -1016,6 +1016,9 @@ def trait_defaults(crate):
                 for op, l, r in guard.relations_on_edge(cond, taken):
                     if op == "Gt" and is_call(l, "len") and r == ("int", 0):
                         g = True
+                # `if self.is_empty() { None } else { .. }`: is_empty is the un-overridden trait default len() == 0 (DEFS)
+                if is_call(cond, "is_empty") and cond[3] == (P("self"),) and not taken:
+                    g = True
         ret = b.return_expr()
         alts = ret[2] if ret[0] == "phi" else (ret,)
         none_ok = any(show(a).endswith("None") for a in alts)
